@@ -297,6 +297,348 @@ theorem plate_buckling_monotone {m n m' n' : ℕ} (hm : m ≤ m') (hn : n ≤ n'
     (fun ro co i k j l => Compmech.Panel.C02.k0_entry_symm_plate (ctxAt base I i k j l) ha hb hF ro co)
     (fun ro co i k j l => Compmech.Panel.C03.kG0_symm_plate (ctxAt base I i k j l) ha hb ro co) hKpd k hneg
 
+/-! #### sub-interval kernels and conical panels: nesting and monotone Ritz eigenvalues
+
+`panelMatrixYX` (`Spec/RitzNesting.lean`): the finalized matrix of a `*y1y2` kernel of the flat / cylindrical models (loops nested
+`j, l, i, k`; equal to `panelMatrix` of the same entries, `panelMatrixYX_eq`).  `conePanelMatrix s …`: the finalized matrix of a
+conical-panel kernel, whose entries are SUMS over the `s` constant-radius sections (`conePanelCoo_entry`); nesting holds section by
+section (no section's entry expression has an `m`, `n` argument), hence for the sums. -/
+
+/-- Nesting for the sub-interval kernels: the `(m, n)` strip matrix is the principal sub-matrix of the `(m', n')` strip matrix along
+the injective index embedding. -/
+theorem nested_principal_submatrix_strip (num : ℕ) {m n m' n' : ℕ} (hm : m ≤ m') (hn : n ≤ n')
+    (entry : Fin num → Fin num → PCtx ℝ → ℝ) (base : PCtx ℝ) (I : Integrals ℝ) (hI : I.Comm)
+    (hsym : ∀ ro co i k j l, entry ro co (ctxAt base I i k j l) = entry co ro (ctxAt base I i k j l).swap) :
+    Function.Injective (embedIndex num hm hn) ∧
+      panelMatrixYX num m n entry base I =
+        (panelMatrixYX num m' n' entry base I).submatrix (embedIndex num hm hn) (embedIndex num hm hn) :=
+  ⟨embedIndex_injective num hm hn, panelMatrixYX_nested num hm hn entry base I hI hsym⟩
+
+/-- Nesting for the conical panel: every section's entries are symmetric under exchange of the two basis functions ⇒ the `(m, n)`
+matrix (sum over the sections) is the principal sub-matrix of the `(m', n')` matrix. -/
+theorem nested_principal_submatrix_cone (s num : ℕ) {m n m' n' : ℕ} (hm : m ≤ m') (hn : n ≤ n')
+    (entry : Fin num → Fin num → PCtx ℝ → ℝ) (base : PCtx ℝ) (I : ℕ → Integrals ℝ) (hI : ∀ sec, (I sec).Comm)
+    (hsym : ∀ sec ro co i k j l, entry ro co (ctxAt (sectionBase base s sec) (I sec) i k j l)
+      = entry co ro (ctxAt (sectionBase base s sec) (I sec) i k j l).swap) :
+    Function.Injective (embedIndex num hm hn) ∧
+      conePanelMatrix s num m n entry base I =
+        (conePanelMatrix s num m' n' entry base I).submatrix (embedIndex num hm hn) (embedIndex num hm hn) :=
+  ⟨embedIndex_injective num hm hn, conePanelMatrix_nested s num hm hn entry base I hI hsym⟩
+
+/-- Standard symmetric problem, sub-interval kernels: `λ_k` of the `(m', n')` matrix `≤ λ_k` of the `(m, n)` matrix. -/
+theorem ritz_eigenvalues_monotone_strip (num : ℕ) {m n m' n' : ℕ} (hm : m ≤ m') (hn : n ≤ n')
+    (entry : Fin num → Fin num → PCtx ℝ → ℝ) (base : PCtx ℝ) (I : Integrals ℝ) (hI : I.Comm)
+    (hsym : ∀ ro co i k j l, entry ro co (ctxAt base I i k j l) = entry co ro (ctxAt base I i k j l).swap)
+    (k : Fin (num * m * n)) :
+    ascEigenvalues (panelMatrixYX_isHermitian num m' n' entry base I) (Fin.castLE (size_le num hm hn) k)
+      ≤ ascEigenvalues (panelMatrixYX_isHermitian num m n entry base I) k :=
+  nested_ascEigenvalues_le (embedIndex_injective num hm hn) (panelMatrixYX_nested num hm hn entry base I hI hsym) _ _ k
+
+/-- Natural frequencies, sub-interval kernels (any two kernels with symmetric entries, mass matrix of the larger model positive
+definite): the `k`-th smallest `ω²` of the `(m, n)` model is at least that of the `(m', n')` model. -/
+theorem ritz_frequencies_monotone_strip (num : ℕ) {m n m' n' : ℕ} (hm : m ≤ m') (hn : n ≤ n')
+    (entryK entryM : Fin num → Fin num → PCtx ℝ → ℝ) (base : PCtx ℝ) (I : Integrals ℝ) (hI : I.Comm)
+    (hsymK : ∀ ro co i k j l, entryK ro co (ctxAt base I i k j l) = entryK co ro (ctxAt base I i k j l).swap)
+    (hsymM : ∀ ro co i k j l, entryM ro co (ctxAt base I i k j l) = entryM co ro (ctxAt base I i k j l).swap)
+    (hMpd : (panelMatrixYX num m' n' entryM base I).PosDef) (k : Fin (num * m * n)) :
+    genEigenvalues (panelMatrixYX_isHermitian num m' n' entryK base I) hMpd (Fin.castLE (size_le num hm hn) k)
+      ≤ genEigenvalues (panelMatrixYX_isHermitian num m n entryK base I)
+          (panelMatrixYX_posDef_of_le num hm hn entryM base I hI hsymM hMpd) k :=
+  nested_genEigenvalues_le (embedIndex_injective num hm hn) (panelMatrixYX_nested num hm hn entryK base I hI hsymK)
+    (panelMatrixYX_nested num hm hn entryM base I hI hsymM) _ _ _ hMpd k
+
+/-- Linear buckling, sub-interval kernels (constitutive stiffness of the larger model positive definite). -/
+theorem ritz_buckling_monotone_strip (num : ℕ) {m n m' n' : ℕ} (hm : m ≤ m') (hn : n ≤ n')
+    (entryK entryG : Fin num → Fin num → PCtx ℝ → ℝ) (base : PCtx ℝ) (I : Integrals ℝ) (hI : I.Comm)
+    (hsymK : ∀ ro co i k j l, entryK ro co (ctxAt base I i k j l) = entryK co ro (ctxAt base I i k j l).swap)
+    (hsymG : ∀ ro co i k j l, entryG ro co (ctxAt base I i k j l) = entryG co ro (ctxAt base I i k j l).swap)
+    (hKpd : (panelMatrixYX num m' n' entryK base I).PosDef) (k : Fin (num * m * n))
+    (hneg : genEigenvalues (panelMatrixYX_isHermitian num m n entryG base I)
+      (panelMatrixYX_posDef_of_le num hm hn entryK base I hI hsymK hKpd) k < 0) :
+    genEigenvalues (panelMatrixYX_isHermitian num m' n' entryG base I) hKpd (Fin.castLE (size_le num hm hn) k) < 0 ∧
+      bucklingMultiplier (panelMatrixYX_isHermitian num m' n' entryG base I) hKpd (Fin.castLE (size_le num hm hn) k)
+        ≤ bucklingMultiplier (panelMatrixYX_isHermitian num m n entryG base I)
+            (panelMatrixYX_posDef_of_le num hm hn entryK base I hI hsymK hKpd) k :=
+  nested_bucklingMultiplier_le (embedIndex_injective num hm hn) (panelMatrixYX_nested num hm hn entryG base I hI hsymG)
+    (panelMatrixYX_nested num hm hn entryK base I hI hsymK) _ _ _ hKpd k hneg
+
+/-- Standard symmetric problem, conical panel. -/
+theorem ritz_eigenvalues_monotone_cone (s num : ℕ) {m n m' n' : ℕ} (hm : m ≤ m') (hn : n ≤ n')
+    (entry : Fin num → Fin num → PCtx ℝ → ℝ) (base : PCtx ℝ) (I : ℕ → Integrals ℝ) (hI : ∀ sec, (I sec).Comm)
+    (hsym : ∀ sec ro co i k j l, entry ro co (ctxAt (sectionBase base s sec) (I sec) i k j l)
+      = entry co ro (ctxAt (sectionBase base s sec) (I sec) i k j l).swap)
+    (k : Fin (num * m * n)) :
+    ascEigenvalues (conePanelMatrix_isHermitian s num m' n' entry base I) (Fin.castLE (size_le num hm hn) k)
+      ≤ ascEigenvalues (conePanelMatrix_isHermitian s num m n entry base I) k :=
+  nested_ascEigenvalues_le (embedIndex_injective num hm hn) (conePanelMatrix_nested s num hm hn entry base I hI hsym) _ _ k
+
+/-- Natural frequencies, conical panel (any two kernels whose section entries are symmetric; mass matrix of the larger model positive
+definite). -/
+theorem ritz_frequencies_monotone_cone (s num : ℕ) {m n m' n' : ℕ} (hm : m ≤ m') (hn : n ≤ n')
+    (entryK entryM : Fin num → Fin num → PCtx ℝ → ℝ) (base : PCtx ℝ) (I : ℕ → Integrals ℝ) (hI : ∀ sec, (I sec).Comm)
+    (hsymK : ∀ sec ro co i k j l, entryK ro co (ctxAt (sectionBase base s sec) (I sec) i k j l)
+      = entryK co ro (ctxAt (sectionBase base s sec) (I sec) i k j l).swap)
+    (hsymM : ∀ sec ro co i k j l, entryM ro co (ctxAt (sectionBase base s sec) (I sec) i k j l)
+      = entryM co ro (ctxAt (sectionBase base s sec) (I sec) i k j l).swap)
+    (hMpd : (conePanelMatrix s num m' n' entryM base I).PosDef) (k : Fin (num * m * n)) :
+    genEigenvalues (conePanelMatrix_isHermitian s num m' n' entryK base I) hMpd (Fin.castLE (size_le num hm hn) k)
+      ≤ genEigenvalues (conePanelMatrix_isHermitian s num m n entryK base I)
+          (conePanelMatrix_posDef_of_le s num hm hn entryM base I hI hsymM hMpd) k :=
+  nested_genEigenvalues_le (embedIndex_injective num hm hn) (conePanelMatrix_nested s num hm hn entryK base I hI hsymK)
+    (conePanelMatrix_nested s num hm hn entryM base I hI hsymM) _ _ _ hMpd k
+
+/-- Linear buckling, conical panel (constitutive stiffness of the larger model positive definite). -/
+theorem ritz_buckling_monotone_cone (s num : ℕ) {m n m' n' : ℕ} (hm : m ≤ m') (hn : n ≤ n')
+    (entryK entryG : Fin num → Fin num → PCtx ℝ → ℝ) (base : PCtx ℝ) (I : ℕ → Integrals ℝ) (hI : ∀ sec, (I sec).Comm)
+    (hsymK : ∀ sec ro co i k j l, entryK ro co (ctxAt (sectionBase base s sec) (I sec) i k j l)
+      = entryK co ro (ctxAt (sectionBase base s sec) (I sec) i k j l).swap)
+    (hsymG : ∀ sec ro co i k j l, entryG ro co (ctxAt (sectionBase base s sec) (I sec) i k j l)
+      = entryG co ro (ctxAt (sectionBase base s sec) (I sec) i k j l).swap)
+    (hKpd : (conePanelMatrix s num m' n' entryK base I).PosDef) (k : Fin (num * m * n))
+    (hneg : genEigenvalues (conePanelMatrix_isHermitian s num m n entryG base I)
+      (conePanelMatrix_posDef_of_le s num hm hn entryK base I hI hsymK hKpd) k < 0) :
+    genEigenvalues (conePanelMatrix_isHermitian s num m' n' entryG base I) hKpd (Fin.castLE (size_le num hm hn) k) < 0 ∧
+      bucklingMultiplier (conePanelMatrix_isHermitian s num m' n' entryG base I) hKpd (Fin.castLE (size_le num hm hn) k)
+        ≤ bucklingMultiplier (conePanelMatrix_isHermitian s num m n entryG base I)
+            (conePanelMatrix_posDef_of_le s num hm hn entryK base I hI hsymK hKpd) k :=
+  nested_bucklingMultiplier_le (embedIndex_injective num hm hn) (conePanelMatrix_nested s num hm hn entryG base I hI hsymG)
+    (conePanelMatrix_nested s num hm hn entryK base I hI hsymK) _ _ _ hKpd k hneg
+
+/-! #### … on the REGENERATED kernels of every analytic panel model (full width, strip, conical) -/
+
+/-- Cylindrical panel (`cpanel_clt_donnell_bardell`), natural frequencies, on the REGENERATED kernels `fk0`, `fkM`: adding terms never raises any `ω²_k`
+(mass matrix of the larger model positive definite); the symmetry hypotheses are discharged by C02 / C04. -/
+theorem cpanel_frequencies_monotone {m n m' n' : ℕ} (hm : m ≤ m') (hn : n ≤ n') (base : PCtx ℝ) (I : Integrals ℝ)
+    (hI : I.Comm) (ha : base.a ≠ 0) (hb : base.b ≠ 0) (hr : base.r ≠ 0) (hF : IsABD base.F)
+    (hMpd : (panelMatrix 3 m' n' CPanel.fkM.entry base I).PosDef) (k : Fin (3 * m * n)) :
+    genEigenvalues (panelMatrix_isHermitian 3 m' n' CPanel.fk0.entry base I) hMpd (Fin.castLE (size_le 3 hm hn) k)
+      ≤ genEigenvalues (panelMatrix_isHermitian 3 m n CPanel.fk0.entry base I)
+          (panelMatrix_posDef_of_le 3 hm hn CPanel.fkM.entry base I hI
+            (fun ro co i k j l => Compmech.Panel.C04.kM_symm_cpanel (ctxAt base I i k j l) ha hb ro co) hMpd) k :=
+  ritz_frequencies_monotone 3 hm hn CPanel.fk0.entry CPanel.fkM.entry base I hI
+    (fun ro co i k j l => Compmech.Panel.C02.k0_entry_symm_cpanel (ctxAt base I i k j l) ha hb hr hF ro co)
+    (fun ro co i k j l => Compmech.Panel.C04.kM_symm_cpanel (ctxAt base I i k j l) ha hb ro co) hMpd k
+
+/-- Cylindrical panel (`cpanel_clt_donnell_bardell`), linear buckling under constant pre-stress, on the REGENERATED kernels `fk0`, `fkG0`: if the `(m, n)` model has at
+least `k+1` positive multipliers so has the `(m', n')` model and its `k`-th smallest is no larger (constitutive stiffness of the larger
+model positive definite); symmetry from C02 / C03. -/
+theorem cpanel_buckling_monotone {m n m' n' : ℕ} (hm : m ≤ m') (hn : n ≤ n') (base : PCtx ℝ) (I : Integrals ℝ)
+    (hI : I.Comm) (ha : base.a ≠ 0) (hb : base.b ≠ 0) (hr : base.r ≠ 0) (hF : IsABD base.F)
+    (hKpd : (panelMatrix 3 m' n' CPanel.fk0.entry base I).PosDef) (k : Fin (3 * m * n))
+    (hneg : genEigenvalues (panelMatrix_isHermitian 3 m n CPanel.fkG0.entry base I)
+      (panelMatrix_posDef_of_le 3 hm hn CPanel.fk0.entry base I hI
+        (fun ro co i k j l => Compmech.Panel.C02.k0_entry_symm_cpanel (ctxAt base I i k j l) ha hb hr hF ro co) hKpd) k < 0) :
+    genEigenvalues (panelMatrix_isHermitian 3 m' n' CPanel.fkG0.entry base I) hKpd (Fin.castLE (size_le 3 hm hn) k) < 0 ∧
+      bucklingMultiplier (panelMatrix_isHermitian 3 m' n' CPanel.fkG0.entry base I) hKpd
+          (Fin.castLE (size_le 3 hm hn) k)
+        ≤ bucklingMultiplier (panelMatrix_isHermitian 3 m n CPanel.fkG0.entry base I)
+            (panelMatrix_posDef_of_le 3 hm hn CPanel.fk0.entry base I hI
+              (fun ro co i k j l => Compmech.Panel.C02.k0_entry_symm_cpanel (ctxAt base I i k j l) ha hb hr hF ro co)
+              hKpd) k :=
+  ritz_buckling_monotone 3 hm hn CPanel.fk0.entry CPanel.fkG0.entry base I hI
+    (fun ro co i k j l => Compmech.Panel.C02.k0_entry_symm_cpanel (ctxAt base I i k j l) ha hb hr hF ro co)
+    (fun ro co i k j l => Compmech.Panel.C03.kG0_symm_cpanel (ctxAt base I i k j l) ha hb ro co) hKpd k hneg
+
+/-- `w`-only plate (`plate_clt_donnell_bardell_w`, one degree of freedom per pair of series indices), natural frequencies, on the REGENERATED kernels `fk0`, `fkM`: adding terms never raises any `ω²_k`
+(mass matrix of the larger model positive definite); the symmetry hypotheses are discharged by C02 / C04. -/
+theorem platew_frequencies_monotone {m n m' n' : ℕ} (hm : m ≤ m') (hn : n ≤ n') (base : PCtx ℝ) (I : Integrals ℝ)
+    (hI : I.Comm) (ha : base.a ≠ 0) (hb : base.b ≠ 0) (hF : IsABD base.F)
+    (hMpd : (panelMatrix 1 m' n' PlateW.fkM.entry base I).PosDef) (k : Fin (1 * m * n)) :
+    genEigenvalues (panelMatrix_isHermitian 1 m' n' PlateW.fk0.entry base I) hMpd (Fin.castLE (size_le 1 hm hn) k)
+      ≤ genEigenvalues (panelMatrix_isHermitian 1 m n PlateW.fk0.entry base I)
+          (panelMatrix_posDef_of_le 1 hm hn PlateW.fkM.entry base I hI
+            (fun ro co i k j l => Compmech.Panel.C04.kM_symm_platew (ctxAt base I i k j l) ha hb ro co) hMpd) k :=
+  ritz_frequencies_monotone 1 hm hn PlateW.fk0.entry PlateW.fkM.entry base I hI
+    (fun ro co i k j l => Compmech.Panel.C02.k0_entry_symm_plate_w (ctxAt base I i k j l) ha hb hF ro co)
+    (fun ro co i k j l => Compmech.Panel.C04.kM_symm_platew (ctxAt base I i k j l) ha hb ro co) hMpd k
+
+/-- `w`-only plate (`plate_clt_donnell_bardell_w`, one degree of freedom per pair of series indices), linear buckling under constant pre-stress, on the REGENERATED kernels `fk0`, `fkG0`: if the `(m, n)` model has at
+least `k+1` positive multipliers so has the `(m', n')` model and its `k`-th smallest is no larger (constitutive stiffness of the larger
+model positive definite); symmetry from C02 / C03. -/
+theorem platew_buckling_monotone {m n m' n' : ℕ} (hm : m ≤ m') (hn : n ≤ n') (base : PCtx ℝ) (I : Integrals ℝ)
+    (hI : I.Comm) (ha : base.a ≠ 0) (hb : base.b ≠ 0) (hF : IsABD base.F)
+    (hKpd : (panelMatrix 1 m' n' PlateW.fk0.entry base I).PosDef) (k : Fin (1 * m * n))
+    (hneg : genEigenvalues (panelMatrix_isHermitian 1 m n PlateW.fkG0.entry base I)
+      (panelMatrix_posDef_of_le 1 hm hn PlateW.fk0.entry base I hI
+        (fun ro co i k j l => Compmech.Panel.C02.k0_entry_symm_plate_w (ctxAt base I i k j l) ha hb hF ro co) hKpd) k < 0) :
+    genEigenvalues (panelMatrix_isHermitian 1 m' n' PlateW.fkG0.entry base I) hKpd (Fin.castLE (size_le 1 hm hn) k) < 0 ∧
+      bucklingMultiplier (panelMatrix_isHermitian 1 m' n' PlateW.fkG0.entry base I) hKpd
+          (Fin.castLE (size_le 1 hm hn) k)
+        ≤ bucklingMultiplier (panelMatrix_isHermitian 1 m n PlateW.fkG0.entry base I)
+            (panelMatrix_posDef_of_le 1 hm hn PlateW.fk0.entry base I hI
+              (fun ro co i k j l => Compmech.Panel.C02.k0_entry_symm_plate_w (ctxAt base I i k j l) ha hb hF ro co)
+              hKpd) k :=
+  ritz_buckling_monotone 1 hm hn PlateW.fk0.entry PlateW.fkG0.entry base I hI
+    (fun ro co i k j l => Compmech.Panel.C02.k0_entry_symm_plate_w (ctxAt base I i k j l) ha hb hF ro co)
+    (fun ro co i k j l => Compmech.Panel.C03.kG0_symm_plate_w (ctxAt base I i k j l) ha hb ro co) hKpd k hneg
+
+/-- Flat plate, natural frequencies, on the REGENERATED sub-interval kernels `fk0y1y2`, `fkMy1y2` (strip `y1 ≤ y ≤ y2`): adding terms never raises any `ω²_k`
+(mass matrix of the larger model positive definite); the symmetry hypotheses are discharged by C02 / C04. -/
+theorem plate_strip_frequencies_monotone {m n m' n' : ℕ} (hm : m ≤ m') (hn : n ≤ n') (base : PCtx ℝ) (I : Integrals ℝ)
+    (hI : I.Comm) (ha : base.a ≠ 0) (hb : base.b ≠ 0) (hF : IsABD base.F)
+    (hMpd : (panelMatrixYX 3 m' n' Plate.fkMy1y2.entry base I).PosDef) (k : Fin (3 * m * n)) :
+    genEigenvalues (panelMatrixYX_isHermitian 3 m' n' Plate.fk0y1y2.entry base I) hMpd (Fin.castLE (size_le 3 hm hn) k)
+      ≤ genEigenvalues (panelMatrixYX_isHermitian 3 m n Plate.fk0y1y2.entry base I)
+          (panelMatrixYX_posDef_of_le 3 hm hn Plate.fkMy1y2.entry base I hI
+            (fun ro co i k j l => Compmech.Panel.C04.kMy1y2_symm_plate (ctxAt base I i k j l) ha hb ro co) hMpd) k :=
+  ritz_frequencies_monotone_strip 3 hm hn Plate.fk0y1y2.entry Plate.fkMy1y2.entry base I hI
+    (fun ro co i k j l => Compmech.Panel.C02.k0y1y2_entry_symm_plate (ctxAt base I i k j l) ha hb hF ro co)
+    (fun ro co i k j l => Compmech.Panel.C04.kMy1y2_symm_plate (ctxAt base I i k j l) ha hb ro co) hMpd k
+
+/-- Flat plate, linear buckling under constant pre-stress, on the REGENERATED sub-interval kernels `fk0y1y2`, `fkG0y1y2` (strip `y1 ≤ y ≤ y2`): if the `(m, n)` model has at
+least `k+1` positive multipliers so has the `(m', n')` model and its `k`-th smallest is no larger (constitutive stiffness of the larger
+model positive definite); symmetry from C02 / C03. -/
+theorem plate_strip_buckling_monotone {m n m' n' : ℕ} (hm : m ≤ m') (hn : n ≤ n') (base : PCtx ℝ) (I : Integrals ℝ)
+    (hI : I.Comm) (ha : base.a ≠ 0) (hb : base.b ≠ 0) (hF : IsABD base.F)
+    (hKpd : (panelMatrixYX 3 m' n' Plate.fk0y1y2.entry base I).PosDef) (k : Fin (3 * m * n))
+    (hneg : genEigenvalues (panelMatrixYX_isHermitian 3 m n Plate.fkG0y1y2.entry base I)
+      (panelMatrixYX_posDef_of_le 3 hm hn Plate.fk0y1y2.entry base I hI
+        (fun ro co i k j l => Compmech.Panel.C02.k0y1y2_entry_symm_plate (ctxAt base I i k j l) ha hb hF ro co) hKpd) k < 0) :
+    genEigenvalues (panelMatrixYX_isHermitian 3 m' n' Plate.fkG0y1y2.entry base I) hKpd (Fin.castLE (size_le 3 hm hn) k) < 0 ∧
+      bucklingMultiplier (panelMatrixYX_isHermitian 3 m' n' Plate.fkG0y1y2.entry base I) hKpd
+          (Fin.castLE (size_le 3 hm hn) k)
+        ≤ bucklingMultiplier (panelMatrixYX_isHermitian 3 m n Plate.fkG0y1y2.entry base I)
+            (panelMatrixYX_posDef_of_le 3 hm hn Plate.fk0y1y2.entry base I hI
+              (fun ro co i k j l => Compmech.Panel.C02.k0y1y2_entry_symm_plate (ctxAt base I i k j l) ha hb hF ro co)
+              hKpd) k :=
+  ritz_buckling_monotone_strip 3 hm hn Plate.fk0y1y2.entry Plate.fkG0y1y2.entry base I hI
+    (fun ro co i k j l => Compmech.Panel.C02.k0y1y2_entry_symm_plate (ctxAt base I i k j l) ha hb hF ro co)
+    (fun ro co i k j l => Compmech.Panel.C03.kG0y1y2_symm_plate (ctxAt base I i k j l) ha hb ro co) hKpd k hneg
+
+/-- Cylindrical panel (`cpanel_clt_donnell_bardell`), natural frequencies, on the REGENERATED sub-interval kernels `fk0y1y2`, `fkMy1y2` (strip `y1 ≤ y ≤ y2`): adding terms never raises any `ω²_k`
+(mass matrix of the larger model positive definite); the symmetry hypotheses are discharged by C02 / C04. -/
+theorem cpanel_strip_frequencies_monotone {m n m' n' : ℕ} (hm : m ≤ m') (hn : n ≤ n') (base : PCtx ℝ) (I : Integrals ℝ)
+    (hI : I.Comm) (ha : base.a ≠ 0) (hb : base.b ≠ 0) (hr : base.r ≠ 0) (hF : IsABD base.F)
+    (hMpd : (panelMatrixYX 3 m' n' CPanel.fkMy1y2.entry base I).PosDef) (k : Fin (3 * m * n)) :
+    genEigenvalues (panelMatrixYX_isHermitian 3 m' n' CPanel.fk0y1y2.entry base I) hMpd (Fin.castLE (size_le 3 hm hn) k)
+      ≤ genEigenvalues (panelMatrixYX_isHermitian 3 m n CPanel.fk0y1y2.entry base I)
+          (panelMatrixYX_posDef_of_le 3 hm hn CPanel.fkMy1y2.entry base I hI
+            (fun ro co i k j l => Compmech.Panel.C04.kMy1y2_symm_cpanel (ctxAt base I i k j l) ha hb ro co) hMpd) k :=
+  ritz_frequencies_monotone_strip 3 hm hn CPanel.fk0y1y2.entry CPanel.fkMy1y2.entry base I hI
+    (fun ro co i k j l => Compmech.Panel.C02.k0y1y2_entry_symm_cpanel (ctxAt base I i k j l) ha hb hr hF ro co)
+    (fun ro co i k j l => Compmech.Panel.C04.kMy1y2_symm_cpanel (ctxAt base I i k j l) ha hb ro co) hMpd k
+
+/-- Cylindrical panel (`cpanel_clt_donnell_bardell`), linear buckling under constant pre-stress, on the REGENERATED sub-interval kernels `fk0y1y2`, `fkG0y1y2` (strip `y1 ≤ y ≤ y2`): if the `(m, n)` model has at
+least `k+1` positive multipliers so has the `(m', n')` model and its `k`-th smallest is no larger (constitutive stiffness of the larger
+model positive definite); symmetry from C02 / C03. -/
+theorem cpanel_strip_buckling_monotone {m n m' n' : ℕ} (hm : m ≤ m') (hn : n ≤ n') (base : PCtx ℝ) (I : Integrals ℝ)
+    (hI : I.Comm) (ha : base.a ≠ 0) (hb : base.b ≠ 0) (hr : base.r ≠ 0) (hF : IsABD base.F)
+    (hKpd : (panelMatrixYX 3 m' n' CPanel.fk0y1y2.entry base I).PosDef) (k : Fin (3 * m * n))
+    (hneg : genEigenvalues (panelMatrixYX_isHermitian 3 m n CPanel.fkG0y1y2.entry base I)
+      (panelMatrixYX_posDef_of_le 3 hm hn CPanel.fk0y1y2.entry base I hI
+        (fun ro co i k j l => Compmech.Panel.C02.k0y1y2_entry_symm_cpanel (ctxAt base I i k j l) ha hb hr hF ro co) hKpd) k < 0) :
+    genEigenvalues (panelMatrixYX_isHermitian 3 m' n' CPanel.fkG0y1y2.entry base I) hKpd (Fin.castLE (size_le 3 hm hn) k) < 0 ∧
+      bucklingMultiplier (panelMatrixYX_isHermitian 3 m' n' CPanel.fkG0y1y2.entry base I) hKpd
+          (Fin.castLE (size_le 3 hm hn) k)
+        ≤ bucklingMultiplier (panelMatrixYX_isHermitian 3 m n CPanel.fkG0y1y2.entry base I)
+            (panelMatrixYX_posDef_of_le 3 hm hn CPanel.fk0y1y2.entry base I hI
+              (fun ro co i k j l => Compmech.Panel.C02.k0y1y2_entry_symm_cpanel (ctxAt base I i k j l) ha hb hr hF ro co)
+              hKpd) k :=
+  ritz_buckling_monotone_strip 3 hm hn CPanel.fk0y1y2.entry CPanel.fkG0y1y2.entry base I hI
+    (fun ro co i k j l => Compmech.Panel.C02.k0y1y2_entry_symm_cpanel (ctxAt base I i k j l) ha hb hr hF ro co)
+    (fun ro co i k j l => Compmech.Panel.C03.kG0y1y2_symm_cpanel (ctxAt base I i k j l) ha hb ro co) hKpd k hneg
+
+/-- `w`-only plate (`plate_clt_donnell_bardell_w`, one degree of freedom per pair of series indices), natural frequencies, on the REGENERATED sub-interval kernels `fk0y1y2`, `fkMy1y2` (strip `y1 ≤ y ≤ y2`): adding terms never raises any `ω²_k`
+(mass matrix of the larger model positive definite); the symmetry hypotheses are discharged by C02 / C04. -/
+theorem platew_strip_frequencies_monotone {m n m' n' : ℕ} (hm : m ≤ m') (hn : n ≤ n') (base : PCtx ℝ) (I : Integrals ℝ)
+    (hI : I.Comm) (ha : base.a ≠ 0) (hb : base.b ≠ 0) (hF : IsABD base.F)
+    (hMpd : (panelMatrixYX 1 m' n' PlateW.fkMy1y2.entry base I).PosDef) (k : Fin (1 * m * n)) :
+    genEigenvalues (panelMatrixYX_isHermitian 1 m' n' PlateW.fk0y1y2.entry base I) hMpd (Fin.castLE (size_le 1 hm hn) k)
+      ≤ genEigenvalues (panelMatrixYX_isHermitian 1 m n PlateW.fk0y1y2.entry base I)
+          (panelMatrixYX_posDef_of_le 1 hm hn PlateW.fkMy1y2.entry base I hI
+            (fun ro co i k j l => Compmech.Panel.C04.kMy1y2_symm_platew (ctxAt base I i k j l) ha hb ro co) hMpd) k :=
+  ritz_frequencies_monotone_strip 1 hm hn PlateW.fk0y1y2.entry PlateW.fkMy1y2.entry base I hI
+    (fun ro co i k j l => Compmech.Panel.C02.k0y1y2_entry_symm_plate_w (ctxAt base I i k j l) ha hb hF ro co)
+    (fun ro co i k j l => Compmech.Panel.C04.kMy1y2_symm_platew (ctxAt base I i k j l) ha hb ro co) hMpd k
+
+/-- `w`-only plate (`plate_clt_donnell_bardell_w`, one degree of freedom per pair of series indices), linear buckling under constant pre-stress, on the REGENERATED sub-interval kernels `fk0y1y2`, `fkG0y1y2` (strip `y1 ≤ y ≤ y2`): if the `(m, n)` model has at
+least `k+1` positive multipliers so has the `(m', n')` model and its `k`-th smallest is no larger (constitutive stiffness of the larger
+model positive definite); symmetry from C02 / C03. -/
+theorem platew_strip_buckling_monotone {m n m' n' : ℕ} (hm : m ≤ m') (hn : n ≤ n') (base : PCtx ℝ) (I : Integrals ℝ)
+    (hI : I.Comm) (ha : base.a ≠ 0) (hb : base.b ≠ 0) (hF : IsABD base.F)
+    (hKpd : (panelMatrixYX 1 m' n' PlateW.fk0y1y2.entry base I).PosDef) (k : Fin (1 * m * n))
+    (hneg : genEigenvalues (panelMatrixYX_isHermitian 1 m n PlateW.fkG0y1y2.entry base I)
+      (panelMatrixYX_posDef_of_le 1 hm hn PlateW.fk0y1y2.entry base I hI
+        (fun ro co i k j l => Compmech.Panel.C02.k0y1y2_entry_symm_plate_w (ctxAt base I i k j l) ha hb hF ro co) hKpd) k < 0) :
+    genEigenvalues (panelMatrixYX_isHermitian 1 m' n' PlateW.fkG0y1y2.entry base I) hKpd (Fin.castLE (size_le 1 hm hn) k) < 0 ∧
+      bucklingMultiplier (panelMatrixYX_isHermitian 1 m' n' PlateW.fkG0y1y2.entry base I) hKpd
+          (Fin.castLE (size_le 1 hm hn) k)
+        ≤ bucklingMultiplier (panelMatrixYX_isHermitian 1 m n PlateW.fkG0y1y2.entry base I)
+            (panelMatrixYX_posDef_of_le 1 hm hn PlateW.fk0y1y2.entry base I hI
+              (fun ro co i k j l => Compmech.Panel.C02.k0y1y2_entry_symm_plate_w (ctxAt base I i k j l) ha hb hF ro co)
+              hKpd) k :=
+  ritz_buckling_monotone_strip 1 hm hn PlateW.fk0y1y2.entry PlateW.fkG0y1y2.entry base I hI
+    (fun ro co i k j l => Compmech.Panel.C02.k0y1y2_entry_symm_plate_w (ctxAt base I i k j l) ha hb hF ro co)
+    (fun ro co i k j l => Compmech.Panel.C03.kG0y1y2_symm_plate_w (ctxAt base I i k j l) ha hb ro co) hKpd k hneg
+
+/-- Conical panel (`kpanel_clt_donnell_bardell`; `s` constant-radius sections — the regenerated schema says `s = 41` —, each with
+its own radius / width `sectionBase base s sec` and its own integrals `I sec`), natural frequencies, on the REGENERATED kernels `fk0`, `fkM`:
+adding terms never raises any `ω²_k` (mass matrix of the larger model positive definite). -/
+theorem kpanel_frequencies_monotone (s : ℕ) {m n m' n' : ℕ} (hm : m ≤ m') (hn : n ≤ n') (base : PCtx ℝ)
+    (I : ℕ → Integrals ℝ) (hI : ∀ sec, (I sec).Comm) (ha : base.a ≠ 0) (hb : ∀ sec, (sectionBase base s sec).b ≠ 0) (hr : ∀ sec, (sectionBase base s sec).r ≠ 0)
+    (hF : IsABD base.F)
+    (hMpd : (conePanelMatrix s 3 m' n' KPanel.fkM.entry base I).PosDef) (k : Fin (3 * m * n)) :
+    genEigenvalues (conePanelMatrix_isHermitian s 3 m' n' KPanel.fk0.entry base I) hMpd (Fin.castLE (size_le 3 hm hn) k)
+      ≤ genEigenvalues (conePanelMatrix_isHermitian s 3 m n KPanel.fk0.entry base I)
+          (conePanelMatrix_posDef_of_le s 3 hm hn KPanel.fkM.entry base I hI
+            (fun sec ro co i k j l => Compmech.Panel.C04.kM_symm_kpanel (ctxAt (sectionBase base s sec) (I sec) i k j l) ha (hb sec) ro co) hMpd) k :=
+  ritz_frequencies_monotone_cone s 3 hm hn KPanel.fk0.entry KPanel.fkM.entry base I hI
+    (fun sec ro co i k j l => Compmech.Panel.C02.k0_entry_symm_kpanel (ctxAt (sectionBase base s sec) (I sec) i k j l) ha (hb sec) (hr sec) hF ro co)
+    (fun sec ro co i k j l => Compmech.Panel.C04.kM_symm_kpanel (ctxAt (sectionBase base s sec) (I sec) i k j l) ha (hb sec) ro co) hMpd k
+
+/-- Conical panel, linear buckling under constant pre-stress, on the REGENERATED kernels `fk0`, `fkG0`. -/
+theorem kpanel_buckling_monotone (s : ℕ) {m n m' n' : ℕ} (hm : m ≤ m') (hn : n ≤ n') (base : PCtx ℝ)
+    (I : ℕ → Integrals ℝ) (hI : ∀ sec, (I sec).Comm) (ha : base.a ≠ 0) (hb : ∀ sec, (sectionBase base s sec).b ≠ 0) (hr : ∀ sec, (sectionBase base s sec).r ≠ 0)
+    (hF : IsABD base.F)
+    (hKpd : (conePanelMatrix s 3 m' n' KPanel.fk0.entry base I).PosDef) (k : Fin (3 * m * n))
+    (hneg : genEigenvalues (conePanelMatrix_isHermitian s 3 m n KPanel.fkG0.entry base I)
+      (conePanelMatrix_posDef_of_le s 3 hm hn KPanel.fk0.entry base I hI
+        (fun sec ro co i k j l => Compmech.Panel.C02.k0_entry_symm_kpanel (ctxAt (sectionBase base s sec) (I sec) i k j l) ha (hb sec) (hr sec) hF ro co) hKpd) k < 0) :
+    genEigenvalues (conePanelMatrix_isHermitian s 3 m' n' KPanel.fkG0.entry base I) hKpd (Fin.castLE (size_le 3 hm hn) k) < 0 ∧
+      bucklingMultiplier (conePanelMatrix_isHermitian s 3 m' n' KPanel.fkG0.entry base I) hKpd
+          (Fin.castLE (size_le 3 hm hn) k)
+        ≤ bucklingMultiplier (conePanelMatrix_isHermitian s 3 m n KPanel.fkG0.entry base I)
+            (conePanelMatrix_posDef_of_le s 3 hm hn KPanel.fk0.entry base I hI
+              (fun sec ro co i k j l => Compmech.Panel.C02.k0_entry_symm_kpanel (ctxAt (sectionBase base s sec) (I sec) i k j l) ha (hb sec) (hr sec) hF ro co)
+              hKpd) k :=
+  ritz_buckling_monotone_cone s 3 hm hn KPanel.fk0.entry KPanel.fkG0.entry base I hI
+    (fun sec ro co i k j l => Compmech.Panel.C02.k0_entry_symm_kpanel (ctxAt (sectionBase base s sec) (I sec) i k j l) ha (hb sec) (hr sec) hF ro co)
+    (fun sec ro co i k j l => Compmech.Panel.C03.kG0_symm_kpanel (ctxAt (sectionBase base s sec) (I sec) i k j l) ha (hb sec) ro co) hKpd k hneg
+
+/-- Conical panel (`kpanel_clt_donnell_bardell`; `s` constant-radius sections — the regenerated schema says `s = 41` —, each with
+its own radius / width `sectionBase base s sec` and its own integrals `I sec`), natural frequencies, on the REGENERATED sub-interval kernels `fk0y1y2`, `fkMy1y2`:
+adding terms never raises any `ω²_k` (mass matrix of the larger model positive definite). -/
+theorem kpanel_strip_frequencies_monotone (s : ℕ) {m n m' n' : ℕ} (hm : m ≤ m') (hn : n ≤ n') (base : PCtx ℝ)
+    (I : ℕ → Integrals ℝ) (hI : ∀ sec, (I sec).Comm) (ha : base.a ≠ 0) (hb : ∀ sec, (sectionBase base s sec).b ≠ 0) (hr : ∀ sec, (sectionBase base s sec).r ≠ 0)
+    (hF : IsABD base.F)
+    (hMpd : (conePanelMatrix s 3 m' n' KPanel.fkMy1y2.entry base I).PosDef) (k : Fin (3 * m * n)) :
+    genEigenvalues (conePanelMatrix_isHermitian s 3 m' n' KPanel.fk0y1y2.entry base I) hMpd (Fin.castLE (size_le 3 hm hn) k)
+      ≤ genEigenvalues (conePanelMatrix_isHermitian s 3 m n KPanel.fk0y1y2.entry base I)
+          (conePanelMatrix_posDef_of_le s 3 hm hn KPanel.fkMy1y2.entry base I hI
+            (fun sec ro co i k j l => Compmech.Panel.C04.kMy1y2_symm_kpanel (ctxAt (sectionBase base s sec) (I sec) i k j l) ha (hb sec) ro co) hMpd) k :=
+  ritz_frequencies_monotone_cone s 3 hm hn KPanel.fk0y1y2.entry KPanel.fkMy1y2.entry base I hI
+    (fun sec ro co i k j l => Compmech.Panel.C02.k0y1y2_entry_symm_kpanel (ctxAt (sectionBase base s sec) (I sec) i k j l) ha (hb sec) (hr sec) hF ro co)
+    (fun sec ro co i k j l => Compmech.Panel.C04.kMy1y2_symm_kpanel (ctxAt (sectionBase base s sec) (I sec) i k j l) ha (hb sec) ro co) hMpd k
+
+/-- Conical panel, linear buckling under constant pre-stress, on the REGENERATED sub-interval kernels `fk0y1y2`, `fkG0y1y2`. -/
+theorem kpanel_strip_buckling_monotone (s : ℕ) {m n m' n' : ℕ} (hm : m ≤ m') (hn : n ≤ n') (base : PCtx ℝ)
+    (I : ℕ → Integrals ℝ) (hI : ∀ sec, (I sec).Comm) (ha : base.a ≠ 0) (hb : ∀ sec, (sectionBase base s sec).b ≠ 0) (hr : ∀ sec, (sectionBase base s sec).r ≠ 0)
+    (hF : IsABD base.F)
+    (hKpd : (conePanelMatrix s 3 m' n' KPanel.fk0y1y2.entry base I).PosDef) (k : Fin (3 * m * n))
+    (hneg : genEigenvalues (conePanelMatrix_isHermitian s 3 m n KPanel.fkG0y1y2.entry base I)
+      (conePanelMatrix_posDef_of_le s 3 hm hn KPanel.fk0y1y2.entry base I hI
+        (fun sec ro co i k j l => Compmech.Panel.C02.k0y1y2_entry_symm_kpanel (ctxAt (sectionBase base s sec) (I sec) i k j l) ha (hb sec) (hr sec) hF ro co) hKpd) k < 0) :
+    genEigenvalues (conePanelMatrix_isHermitian s 3 m' n' KPanel.fkG0y1y2.entry base I) hKpd (Fin.castLE (size_le 3 hm hn) k) < 0 ∧
+      bucklingMultiplier (conePanelMatrix_isHermitian s 3 m' n' KPanel.fkG0y1y2.entry base I) hKpd
+          (Fin.castLE (size_le 3 hm hn) k)
+        ≤ bucklingMultiplier (conePanelMatrix_isHermitian s 3 m n KPanel.fkG0y1y2.entry base I)
+            (conePanelMatrix_posDef_of_le s 3 hm hn KPanel.fk0y1y2.entry base I hI
+              (fun sec ro co i k j l => Compmech.Panel.C02.k0y1y2_entry_symm_kpanel (ctxAt (sectionBase base s sec) (I sec) i k j l) ha (hb sec) (hr sec) hF ro co)
+              hKpd) k :=
+  ritz_buckling_monotone_cone s 3 hm hn KPanel.fk0y1y2.entry KPanel.fkG0y1y2.entry base I hI
+    (fun sec ro co i k j l => Compmech.Panel.C02.k0y1y2_entry_symm_kpanel (ctxAt (sectionBase base s sec) (I sec) i k j l) ha (hb sec) (hr sec) hF ro co)
+    (fun sec ro co i k j l => Compmech.Panel.C03.kG0y1y2_symm_kpanel (ctxAt (sectionBase base s sec) (I sec) i k j l) ha (hb sec) ro co) hKpd k hneg
+
 end Panels
 
 /-! ### Non-vacuity: concrete instances -/
@@ -365,6 +707,39 @@ example (k : Fin (3 * 1 * 1)) :
   ritz_eigenvalues_monotone 3 (by norm_num) (by norm_num) Plate.fk0.entry unitBase monoI monoI_comm
     (fun ro co i k j l => Compmech.Panel.C02.k0_entry_symm_plate (ctxAt unitBase monoI i k j l)
       (show unitBase.a ≠ 0 by norm_num [unitBase]) (show unitBase.b ≠ 0 by norm_num [unitBase]) unitF_isABD ro co) k
+
+open Compmech.Panel Compmech.Gen Compmech.Panel.PSDExample in
+/-- the regenerated CYLINDRICAL-panel stiffness kernel on the instance of `Spec/PSDExample.lean` (`r = 1`): `(1, 1)` → `(2, 3)` terms -/
+example (k : Fin (3 * 1 * 1)) :
+    ascEigenvalues (panelMatrix_isHermitian 3 2 3 CPanel.fk0.entry unitBase monoI)
+        (Fin.castLE (size_le 3 (by norm_num : 1 ≤ 2) (by norm_num : 1 ≤ 3)) k)
+      ≤ ascEigenvalues (panelMatrix_isHermitian 3 1 1 CPanel.fk0.entry unitBase monoI) k :=
+  ritz_eigenvalues_monotone 3 (by norm_num) (by norm_num) CPanel.fk0.entry unitBase monoI monoI_comm
+    (fun ro co i k j l => Compmech.Panel.C02.k0_entry_symm_cpanel (ctxAt unitBase monoI i k j l)
+      (show unitBase.a ≠ 0 by norm_num [unitBase]) (show unitBase.b ≠ 0 by norm_num [unitBase])
+      (show unitBase.r ≠ 0 by norm_num [unitBase]) unitF_isABD ro co) k
+
+open Compmech.Panel Compmech.Gen Compmech.Panel.PSDExample in
+/-- the `w`-only plate, strip kernel `fk0y1y2`: `(1, 1)` → `(2, 3)` terms (one eigenvalue) -/
+example (k : Fin (1 * 1 * 1)) :
+    ascEigenvalues (panelMatrixYX_isHermitian 1 2 3 PlateW.fk0y1y2.entry unitBase monoI)
+        (Fin.castLE (size_le 1 (by norm_num : 1 ≤ 2) (by norm_num : 1 ≤ 3)) k)
+      ≤ ascEigenvalues (panelMatrixYX_isHermitian 1 1 1 PlateW.fk0y1y2.entry unitBase monoI) k :=
+  ritz_eigenvalues_monotone_strip 1 (by norm_num) (by norm_num) PlateW.fk0y1y2.entry unitBase monoI monoI_comm
+    (fun ro co i k j l => Compmech.Panel.C02.k0y1y2_entry_symm_plate_w (ctxAt unitBase monoI i k j l)
+      (show unitBase.a ≠ 0 by norm_num [unitBase]) (show unitBase.b ≠ 0 by norm_num [unitBase]) unitF_isABD ro co) k
+
+open Compmech.Panel Compmech.Gen Compmech.Panel.PSDExample in
+/-- the regenerated CONICAL-panel stiffness kernel with the 41 sections of the source on the same instance (`sin α = −1/2`, every section
+has positive radius and width: `section_r_pos`, `section_b_pos`): `(1, 1)` → `(2, 3)` terms -/
+example (k : Fin (3 * 1 * 1)) :
+    ascEigenvalues (conePanelMatrix_isHermitian 41 3 2 3 KPanel.fk0.entry unitBase fun _ => monoI)
+        (Fin.castLE (size_le 3 (by norm_num : 1 ≤ 2) (by norm_num : 1 ≤ 3)) k)
+      ≤ ascEigenvalues (conePanelMatrix_isHermitian 41 3 1 1 KPanel.fk0.entry unitBase fun _ => monoI) k :=
+  ritz_eigenvalues_monotone_cone 41 3 (by norm_num) (by norm_num) KPanel.fk0.entry unitBase (fun _ => monoI)
+    (fun _ => monoI_comm)
+    (fun sec ro co i k j l => Compmech.Panel.C02.k0_entry_symm_kpanel (ctxAt (sectionBase unitBase 41 sec) monoI i k j l)
+      (show unitBase.a ≠ 0 by norm_num [unitBase]) (section_b_pos 41 sec).ne' (section_r_pos 41 sec).ne' unitF_isABD ro co) k
 
 end NonVacuity
 
